@@ -357,6 +357,8 @@ class Scratch:
         e["PYTHONDONTWRITEBYTECODE"] = "1"
         e["MPLBACKEND"] = "Agg"
         e["PYTHONHASHSEED"] = "0"
+        for k in ("OMP_NUM_THREADS", "OPENBLAS_NUM_THREADS", "MKL_NUM_THREADS"):
+            e[k] = "1"  # one core per history (the launcher does the same for every check)
         e.pop("GIT_DIR", None)
         e.pop("GIT_WORK_TREE", None)
         for k, v in (skew or {}).items():
